@@ -916,6 +916,8 @@ def run_gp_scenario(spec):
                     continue
                 r = running[tid]
                 lat = (hash_float(spec["seed"], tid) + rng.randrange(-8, 9) / (64.0 * r))
+                if spec.get("p_nan") and rng.random() < spec["p_nan"]:
+                    lat = rng.choice([float("nan"), float("inf"), float("-inf")])  # a diverged run
                 res = {METRIC: lat, RES: r}
                 d = sch.on_trial_result(trials[tid], dict(res))
                 if d != "CONTINUE":
